@@ -60,11 +60,34 @@ let pfail line clause expected =
   incr n_mismatch;
   if !n_mismatch <= 50 then Printf.printf "PFAIL %s || clause=%s expected=%s\n" line clause expected
 
+(* DISAGREE lines have their own print budget: thousands of them (e.g. every T line with a length
+   9..255 when decodeFrame changes) must not use up the budget of the MISMATCH / PFAIL lines that carry
+   the concrete failing inputs; they are added to the mismatch count at the end *)
+let n_disagree = ref 0
+
 let disagree line expected =
-  incr n_mismatch;
-  if !n_mismatch <= 50 then Printf.printf "DISAGREE %s || model=%s\n" line expected
+  incr n_disagree;
+  if !n_disagree <= 20 then Printf.printf "DISAGREE %s || model=%s\n" line expected
 
 let clip s = if String.length s > 600 then String.sub s 0 600 ^ "..." else s
+let clip_long s = if String.length s > 8000 then String.sub s 0 8000 ^ "..." else s
+
+let rec int_of_nat = function O -> 0 | S n -> 1 + int_of_nat n
+
+let split_first c s =
+  match String.index_opt s c with
+  | Some i -> (String.sub s 0 i, String.sub s (i + 1) (String.length s - i - 1))
+  | None -> failwith ("missing '" ^ String.make 1 c ^ "' in " ^ s)
+
+let has_prefix p s = String.length s >= String.length p && String.sub s 0 (String.length p) = p
+let tail_from s i = String.sub s i (String.length s - i)
+
+let rec first_diff i a b =
+  match (a, b) with
+  | x :: a', y :: b' -> if x = y then first_diff (i + 1) a' b' else (i, x, y)
+  | [], y :: _ -> (i, "<nothing>", y)
+  | x :: _, [] -> (i, x, "<nothing>")
+  | [], [] -> (i, "", "")
 
 (* ------------------------------------------------------------------ C06 *)
 
@@ -121,6 +144,37 @@ let handle_block line blk rest =
   note_case (if ie then "R-error" else if f.fext then "R-ext" else "R-std") line;
   let impl = String.concat " " rest in
   if impl <> spec then mismatch line spec
+
+(* the blocks as one stream through one receiver, cut into reads at arbitrary offsets: the k-th
+   Receive must yield what C06 says about the k-th block - the segmentation must not matter *)
+let handle_split line toks =
+  let split_bar' l =
+    let rec go acc = function [] -> (List.rev acc, []) | "|" :: tl -> (List.rev acc, tl) | x :: tl -> go (x :: acc) tl in
+    go [] l
+  in
+  let blocks_t, rest = split_bar' toks in
+  let reads_t, rx_t = split_bar' rest in
+  let stream = String.concat "" blocks_t in
+  let logged =
+    String.concat ""
+      (lmap (fun t -> if t.[0] = 'd' then tail_from t 1 else if t = "z" then "" else failwith ("unexpected read in a Q line: " ^ line)) reads_t)
+  in
+  if not (has_prefix logged stream) then failwith ("the reader's log is not a prefix of the blocks: " ^ line);
+  let expected =
+    lmap
+      (fun blk ->
+        let b = data_of_hex blk in
+        if not (block16b b) then failwith ("not a 16-byte block: " ^ line);
+        if rx_str (Some (s_decode b)) <> rx_str (receive16 b) then failwith ("model and specification differ (receive): " ^ line);
+        let ((f, ie), ef) = s_decode b in
+        Printf.sprintf "1:%s:%s:%s" (frame_str f) (b01 ie) (errframe_str ef))
+      blocks_t
+  in
+  let nreads = llen (List.filter (fun t -> t.[0] = 'd') reads_t) in
+  note_case
+    (Printf.sprintf "Q-%s-%s" (if llen blocks_t = 1 then "1blk" else "nblk") (if nreads <= 1 then "1read" else "split"))
+    line;
+  if rx_t <> expected then mismatch line (String.concat " " expected)
 
 (* ------------------------------------------------------------------ C07 *)
 
@@ -196,7 +250,8 @@ let handle_transmit_seq line toks =
     lmap
       (fun c ->
         match String.split_on_char ';' c with
-        | [ fr; dl; da; wn; wa ] ->
+        | [ fr; dl; da; wn; wa ] | [ fr; dl; da; wn; wa; "s" ] ->
+            (* ";s": later Writes of the same call would succeed - the model makes one Write only *)
             ( ( bool_of dl,
                 { ans_deadline = opt_error_of_code da; ans_write = opt_error_of_code wa; ans_write_n = z_of_hex wn } ),
               frame_of_str fr )
@@ -213,7 +268,15 @@ let handle_transmit_seq line toks =
   let expected = List.concat (lmap (fun (evs, r) -> lmap ev_str evs @ [ res_str r ]) results) in
   List.iter
     (fun (((dl, a), _), (_, r)) ->
+      let real = function Some (EOther c) -> int_of_z c >= 64 | _ -> false in
       let k =
+        if real a.ans_write || real a.ans_deadline then
+          (* a real error kind (ENOBUFS, EAGAIN, a net.Error timeout, ...) *)
+          Printf.sprintf "X-%s-realerr-%s%s" (if dl then "dl" else "nodl")
+            (if real a.ans_deadline then "deadline"
+             else match int_of_z a.ans_write_n with 0 -> "write-n0" | 16 -> "write-n16" | _ -> "write-partial")
+            (match r with TxOk -> "-ok" | TxErr _ -> "-err" | TxPanic -> "-panic")
+        else
         Printf.sprintf "X-%s%s-n%s%s%s" (if dl then "dl" else "nodl")
           (if dl && a.ans_deadline <> None then "-dlfail" else "")
           (hex_of_z a.ans_write_n) (if a.ans_write <> None then "e" else "")
@@ -252,6 +315,151 @@ let handle_concurrent line toks =
   let got = List.sort compare blocks_t in
   if got <> expected then pfail line "concurrent-transmit-blocks-differ" (String.concat " " expected)
 
+(* ------------------------------------------------------------------ C07: several receivers / transmitters *)
+
+let event_str_owner (i : int) (e : event) : string =
+  let ic fs = String.concat "," (lmap (fun f -> Printf.sprintf "%d@%s" i (frame_str f)) fs) in
+  match e with
+  | EvFrame (c, f, ie, ef) -> Printf.sprintf "T:%s:%s:%s:%s" (ic c) (frame_str f) (b01 ie) (errframe_str ef)
+  | EvStop (c, f, err) -> Printf.sprintf "F:%s:%s:%s" (ic c) (frame_str f) (code_of_opt_error err)
+  | EvPanic -> "P"
+  | EvHang -> "H"
+
+let id_of t = int_of_string (tail_from t 1)
+
+(* an observation token without its interceptor field *)
+let without_icpt (t : string) : string =
+  match String.split_on_char ':' t with
+  | hd :: _ :: tl -> String.concat ":" (hd :: tl)
+  | _ -> t
+
+let handle_multi line toks =
+  let ops_t, rest = split_bar [] toks in
+  let logs_t, obs_t = split_bar [] rest in
+  let logs = Hashtbl.create 8 in
+  List.iter
+    (fun t ->
+      let k, v = split_first '=' t in
+      let reads = if v = "" then [] else lmap read_of_token (String.split_on_char ',' v) in
+      Hashtbl.replace logs (id_of k) reads)
+    logs_t;
+  let created = ref [] in
+  let ops =
+    lmap
+      (fun t ->
+        match t.[0] with
+        | 'n' ->
+            let a, b = split_first ':' (tail_from t 1) in
+            let i = int_of_string a in
+            if List.mem_assoc i !created then failwith ("receiver number used twice: " ^ clip line);
+            created := (i, bool_of b) :: !created;
+            (nat_of_int i, ONew (bool_of b, try Hashtbl.find logs i with Not_found -> failwith ("no read log: " ^ clip line)))
+        | 'r' -> (nat_of_int (id_of t), OReceive)
+        | 'c' -> (nat_of_int (id_of t), OClose)
+        | _ -> failwith ("bad operation " ^ t))
+      ops_t
+  in
+  let model = receivers_run ops in
+  (* the independence theorem (C07_receiver_in_process), re-checked on this instance: receiver i of the
+     process model shows what the single-receiver SPECIFICATION says about its own connection *)
+  let any_frame = ref false in
+  List.iter
+    (fun (i, icpt) ->
+      let n = llen (List.filter (fun (j, o) -> int_of_nat j = i && o = OReceive) ops) in
+      let mine =
+        List.concat (lmap (function ObEvent e -> [ event_str e ] | ObClosed -> []) (addressed_to (nat_of_int i) model))
+      in
+      let rs = Hashtbl.find logs i in
+      let spec = lmap (fun e -> event_str (see icpt e)) (spec_calls (nat_of_int n) rs) in
+      if mine <> spec then failwith (Printf.sprintf "process model and single-receiver specification differ (receiver %d): %s" i (clip line));
+      if List.exists (fun t -> t.[0] = 'T') spec then any_frame := true)
+    !created;
+  let expected =
+    lmap
+      (fun (i, o) ->
+        let i = int_of_nat i in
+        match o with ObClosed -> Printf.sprintf "%d/C-" i | ObEvent e -> Printf.sprintf "%d/%s" i (event_str_owner i e))
+      model
+  in
+  let nclose i = llen (List.filter (fun (j, o) -> int_of_nat j = i && o = OClose) ops) in
+  let flags = lmap snd !created in
+  let kind =
+    Printf.sprintf "M-%drecv%s%s%s" (llen !created)
+      (if List.mem true flags && List.mem false flags then "-mixed-icpt" else "")
+      (if List.exists (fun (i, _) -> nclose i = 1) !created then "-close" else "")
+      (if List.exists (fun (i, _) -> nclose i >= 2) !created then "-reclose" else "")
+  in
+  note_case ~nontrivial:!any_frame kind (clip_long line);
+  if obs_t <> expected then begin
+    let idx, got, want = first_diff 0 obs_t expected in
+    let clause =
+      if List.exists (fun t -> has_prefix "P" (snd (split_first '/' t))) obs_t then "no-panic"
+      else if without_icpt got = without_icpt want then "interceptor-exactly-once-per-frame-of-its-own-receiver"
+      else "every-receiver-delivers-the-frames-of-its-own-stream"
+    in
+    pfail (clip_long line) clause (Printf.sprintf "obs#%d:%s (got %s)" idx (clip want) (clip got))
+  end
+
+let handle_multi_tx line toks =
+  let ops_t, events_t = split_bar [] toks in
+  let created = ref [] in
+  let ops =
+    lmap
+      (fun t ->
+        let a, b = split_first ':' (tail_from t 1) in
+        let i = int_of_string a in
+        match t.[0] with
+        | 'n' ->
+            if List.mem_assoc i !created then failwith ("transmitter number used twice: " ^ line);
+            created := (i, bool_of b) :: !created;
+            (nat_of_int i, TNew (bool_of b))
+        | 't' -> (
+            match String.split_on_char ';' b with
+            | [ fr; dl; da; wn; wa ] ->
+                ( nat_of_int i,
+                  TCall
+                    ( bool_of dl,
+                      { ans_deadline = opt_error_of_code da; ans_write = opt_error_of_code wa; ans_write_n = z_of_hex wn },
+                      frame_of_str fr ) )
+            | _ -> failwith ("bad call " ^ t))
+        | _ -> failwith ("bad operation " ^ t))
+      ops_t
+  in
+  let model = transmitters_run ops in
+  (* C07_transmitter_in_process re-checked on this instance *)
+  List.iter
+    (fun (i, icpt) ->
+      let calls =
+        List.concat (lmap (fun (j, o) -> match o with TCall (dl, a, f) when int_of_nat j = i -> [ ((dl, a), f) ] | _ -> []) ops)
+      in
+      if addressed_to (nat_of_int i) model <> lmap (see_tx icpt) (transmit_all calls) then
+        failwith (Printf.sprintf "process model and single-transmitter model differ (transmitter %d): %s" i line))
+    !created;
+  let expected =
+    List.concat
+      (lmap
+         (fun (i, (evs, r)) ->
+           let i = int_of_nat i in
+           let tag s = Printf.sprintf "%d/%d.%s" i i s in
+           lmap (function TxSetDeadline -> tag "D" | TxWrite bs -> tag ("W" ^ hex_of_data bs) | TxIntercept f -> tag ("I" ^ frame_str f)) evs
+           @ [ tag (match r with TxOk -> "R-" | TxErr e -> "R" ^ code_of_error e | TxPanic -> "RP") ])
+         model)
+  in
+  let flags = lmap snd !created in
+  note_case
+    (Printf.sprintf "N-%dtx%s" (llen !created) (if List.mem true flags && List.mem false flags then "-mixed-icpt" else ""))
+    line;
+  if events_t <> expected then begin
+    let idx, got, want = first_diff 0 events_t expected in
+    let is_i t = match String.index_opt t '.' with Some k -> k + 1 < String.length t && t.[k + 1] = 'I' | None -> false in
+    let clause =
+      if llen (List.filter is_i events_t) <> llen (List.filter is_i expected) || is_i got || is_i want then
+        "interceptor-of-its-own-transmitter-iff-write-succeeded"
+      else "every-transmitter-uses-its-own-connection"
+    in
+    pfail line clause (Printf.sprintf "event#%d:%s (got %s)" idx want got)
+  end
+
 let handle line =
   match split_ws line with
   | "C" :: toks -> handle_concurrent line toks
@@ -260,6 +468,9 @@ let handle line =
   | "R" :: blk :: "|" :: rest -> handle_block line blk rest
   | "S" :: n :: toks -> handle_script line n toks
   | "X" :: toks -> handle_transmit_seq line toks
+  | "Q" :: toks -> handle_split line toks
+  | "M" :: toks -> handle_multi line toks
+  | "N" :: toks -> handle_multi_tx line toks
   | _ -> failwith ("unparsable line: " ^ clip line)
 
 let () =
@@ -270,4 +481,5 @@ let () =
      done
    with End_of_file -> ());
   Hashtbl.iter (fun k v -> Hashtbl.replace kinds k v) read_kinds;
+  n_mismatch := !n_mismatch + !n_disagree;
   print_stats ()
